@@ -4,7 +4,7 @@ import "time"
 
 func init() {
 	plans["C13"] = Plan{Prop: "C13", Level: "exploration", KeepEvents: true,
-		Rule: "one case = one concurrent history: 8 writer goroutines (assert expansion, store entities whose ids/keys live in new namespaces through the real parser, compact URIs through a contextual store) and 6 reader goroutines (lookup, expand, marshal Dataset.GetContext(), iterate+marshal GetGlobalContext) x 60 ops over 14 generated expansions of mixed shapes, all goroutines reaching the same new expansion at about the same time; plus one round-trip case per child over ~400 generated URI shapes (hash/slash namespaces, empty local part, colons, '#'/'/' mixtures, http and https). Deciding monitors: porcupine 'unset or set once forever' per expansion, global injectivity of every (expansion,prefix) and (URI,internal id) pair observed incl. after a restart, round trip expand(compact(u)) == u, panics / inconsistent answers / process death, crash-capable race blocks under -race. Non-trivial = some new expansion was asserted by two goroutines whose calls overlapped",
+		Rule:        "one case = one concurrent history: 8 writer goroutines (assert expansion, store entities whose ids/keys live in new namespaces through the real parser, compact URIs through a contextual store) and 6 reader goroutines (lookup, expand, marshal Dataset.GetContext(), iterate+marshal GetGlobalContext) x 60 ops over 14 generated expansions of mixed shapes, all goroutines reaching the same new expansion at about the same time; plus one round-trip case per child over ~400 generated URI shapes (hash/slash namespaces, empty local part, colons, '#'/'/' mixtures, http and https). Deciding monitors: porcupine 'unset or set once forever' per expansion, global injectivity of every (expansion,prefix) and (URI,internal id) pair observed incl. after a restart, round trip expand(compact(u)) == u, panics / inconsistent answers / process death, crash-capable race blocks under -race. Non-trivial = some new expansion was asserted by two goroutines whose calls overlapped",
 		Assumptions: []string{"a URI the hub refuses to compact is not a round-trip violation", "race blocks without a runtime map access are counted, not judged", "crash points in the id path are exercised by the C04 crash protocol (cross-index scan: uri->id and id->uri mutually inverse)"},
 		Stages: func(tier string) []Stage {
 			mk := func(name string, gmp, children, cases int, race bool) Stage {
